@@ -115,6 +115,7 @@ def _build(d):
     post = [[d.choice(sorted(model['inputs'])),
              d.choice([0, 1, -3, 2.5, 100, 7.0])] for _ in range(d.pick(3))]
     return {'model': model, 'extras': extras, 'errs': errs, 'names': names,
+            'dirty': d.pick(4) == 0,
             'history': hist, 'ext': d.choice(EXTS),
             'precompile': d.pick(6) == 0, 'post': post}
 
@@ -361,6 +362,17 @@ def judge(case):
                 return res
         try:
             m2 = xl.Model()
+            if case.get('dirty'):
+                # the Model object already holds ANOTHER model (restored from
+                # another file a moment ago): what was in it must be gone
+                other = os.path.join(tmpdir(), 'other%d.json' % os.getpid())
+                om = xl.ModelCompiler().read_and_parse_dict({
+                    'Sheet1!A4': 7, 'Sheet1!Q1': 5, 'Sheet1!Q2': 6,
+                    'Sheet1!Q3': '=SUM(Q1:Q2)+A4', 'Other!A1': 'left over'})
+                om.persist_to_json_file(other)
+                m2.construct_from_json_file(other, build_code=True)
+                os.remove(other)
+                res.labels += ('restore-into-used-model',)
             m2.construct_from_json_file(fn, build_code=True)
         except Exception as err:  # noqa: BLE001
             t = exc_tag(err)
